@@ -7,6 +7,11 @@ VERIF = os.path.dirname(os.path.dirname(os.path.abspath(__file__)))
 
 # id -> (level, technique, level text, level note, design ref)
 CLAIMED = {
+    "C28": ("exploration",
+            "deterministic simulation: Get/GetAll/Set histories (sequential and pipelined) from a raw client against the real Properties interface; linearizability against a property-map model plus signal accounting",
+            "A raw client issues Get / GetAll / Set calls of every kind (right and wrong type, unknown, read-only, write-only, unknown interface) against properties of every access and emits-changed mode, one at a time or pipelined (Properties handlers run concurrently). The decoded history must be linearizable against a property map, and by quiescence the PropertiesChanged signals must be exactly those the successful Sets imply.",
+            "Hand-written corpus interface (6 properties), not generated per seed; error names are not judged.",
+            "DESIGN.md §3 C28"),
     "C31": ("exploration",
             "deterministic simulation: scripted server object placing PropertiesChanged signals before / with / after the GetAll reply in seeded wire orders; cache compared with a fold over the received history",
             "A real proxy (cache Yes or Lazily, some properties uncached) talks to a scripted object that delays the GetAll reply and emits changes and invalidations (own and foreign interface) around it and in later rounds. At every quiescent point cached_property, get_property and the last item of a change stream must equal the fold of the snapshot and the later signals in wire order.",
